@@ -45,6 +45,7 @@ OrcStaticOpcode * orc_opcode_find_by_name (const char *name) {
   int k = nondet_int(); __CPROVER_assume(k >= 0 && k < 8);
   return &g_optab[k];
 }
+int g_code_free_calls_;
 void orc_code_free (OrcCode *code) { __CPROVER_assert(__CPROVER_rw_ok(code, sizeof(*code)), "orc_code_free of a live code object"); free(code); }
 OrcCompileResult orc_compiler_compile_program (OrcCompiler *compiler, OrcProgram *program, OrcTarget *target, unsigned int flags) { free(compiler); return nondet_int(); }
 OrcTarget * orc_target_get_default (void) { return NULL; }
@@ -102,3 +103,77 @@ void h_orc_program_append_ds_str(void) { OrcProgram *p = mk_program(); mk_names(
 void h_orc_program_append_dds_str(void) { OrcProgram *p = mk_program(); mk_names(p); orc_program_append_dds_str(p, g_str, g_str, g_str, g_str); REACH(); }
 
 void h_orc_program_find_var_by_name(void) { OrcProgram *p = mk_program(); mk_names(p); orc_program_find_var_by_name(p, nondet_bool() ? NULL : g_str); REACH(); }
+
+/* ================================================================ C16: ownership of everything a program holds */
+int g_vi;   /* ghost variable index */
+/* every owned pointer field is NULL or a live heap block of its own (built by the harness, stated for replace mode) */
+static char *own_str(void) { if (nondet_bool()) return NULL; char *s = malloc(8); __CPROVER_assume(s != NULL); s[7] = 0; return s; }
+static OrcProgram *mk_owned_program(void) {
+  OrcProgram *p = malloc(sizeof(*p)); __CPROVER_assume(p != NULL);
+  __CPROVER_assume(PROGRAM_COUNTS_OK(p));
+  for (int i = 0; i < ORC_N_VARIABLES; i++) { p->vars[i].name = own_str(); p->vars[i].type_name = own_str(); }
+  p->asm_code = own_str(); p->init_function = own_str(); p->backup_name = own_str(); p->name = own_str(); p->error_msg = own_str();
+  if (nondet_bool()) p->orccode = NULL; else { p->orccode = malloc(sizeof(OrcCode)); __CPROVER_assume(p->orccode != NULL); }
+  g_vi = nondet_int(); __CPROVER_assume(g_vi >= 0 && g_vi < ORC_N_VARIABLES);
+  g_str[7] = 0;
+  return p;
+}
+#define FREED_IF_SET(expr) (__CPROVER_old(expr) == NULL || __CPROVER_was_freed(__CPROVER_old(expr)))
+
+/* destructor: everything owned is released, the code object through orc_code_free (exactly once) */
+void orc_program_free (OrcProgram *program)
+__CPROVER_requires(__CPROVER_rw_ok(program, sizeof(OrcProgram)))
+__CPROVER_assigns(__CPROVER_object_whole(program))
+__CPROVER_frees(program, program->asm_code, program->init_function, program->backup_name, program->name, program->error_msg, program->orccode,
+                program->vars[g_vi].name, program->vars[g_vi].type_name)
+__CPROVER_ensures(__CPROVER_was_freed(__CPROVER_old(program)))
+__CPROVER_ensures(FREED_IF_SET(program->asm_code) && FREED_IF_SET(program->init_function) && FREED_IF_SET(program->backup_name))
+__CPROVER_ensures(FREED_IF_SET(program->name) && FREED_IF_SET(program->error_msg) && FREED_IF_SET(program->orccode))
+__CPROVER_ensures(FREED_IF_SET(program->vars[g_vi].name) && FREED_IF_SET(program->vars[g_vi].type_name));
+void h_orc_program_free(void) { OrcProgram *p = mk_owned_program(); orc_program_free(p); REACH(); }
+
+/* setters that replace an owned string release the old one and install a fresh copy */
+#define H_SETTER(fn, field) void h_##fn(void) { OrcProgram *p = mk_owned_program(); fn(p, g_str); \
+   __CPROVER_assert(p->field != NULL, #fn " installs a copy"); orc_program_free(p); REACH(); }
+H_SETTER(orc_program_set_name, name)
+H_SETTER(orc_program_set_backup_name, backup_name)
+void h_orc_program_set_type_name_own(void) {
+  OrcProgram *p = mk_owned_program();
+  orc_program_set_type_name(p, g_vi, g_str);
+  orc_program_free(p);
+  REACH();
+}
+void h_orc_program_reset(void) {
+  OrcProgram *p = mk_owned_program();
+  orc_program_reset(p);
+  __CPROVER_assert(p->orccode == NULL && p->asm_code == NULL && p->error_msg == NULL, "reset clears what it released");
+  orc_program_free(p);
+  REACH();
+}
+void h_orc_program_take_code(void) {
+  OrcProgram *p = mk_owned_program();
+  OrcCode *had = p->orccode;
+  OrcCode *c = orc_program_take_code(p);
+  __CPROVER_assert(c == had && p->orccode == NULL, "take_code hands the code object over");
+  orc_program_free(p);
+  /* a taken code object stays valid after the program is freed; it is the caller's to release */
+  __CPROVER_assert(c == NULL || __CPROVER_rw_ok(c, sizeof(OrcCode)), "taken code object still alive after orc_program_free");
+  if (c) free(c);
+  REACH();
+}
+/* every add_* stores an owned copy of the name that the destructor releases */
+void h_add_then_free(void) {
+  OrcProgram *p = mk_owned_program();
+  /* the slot the new variable goes into is empty (that is what the counters mean) */
+  int k = nondet_int();
+  int idx;
+  switch (k) {
+    case 0: __CPROVER_assume(p->vars[ORC_VAR_T1 + (p->n_temp_vars < ORC_MAX_TEMP_VARS ? p->n_temp_vars : 0)].name == NULL); idx = orc_program_add_temporary(p, 2, g_str); break;
+    case 1: __CPROVER_assume(p->vars[ORC_VAR_S1 + (p->n_src_vars < ORC_MAX_SRC_VARS ? p->n_src_vars : 0)].name == NULL && p->vars[ORC_VAR_S1 + (p->n_src_vars < ORC_MAX_SRC_VARS ? p->n_src_vars : 0)].type_name == NULL); idx = orc_program_add_source(p, 2, g_str); break;
+    case 2: __CPROVER_assume(p->vars[ORC_VAR_D1 + (p->n_dest_vars < ORC_MAX_DEST_VARS ? p->n_dest_vars : 0)].name == NULL && p->vars[ORC_VAR_D1 + (p->n_dest_vars < ORC_MAX_DEST_VARS ? p->n_dest_vars : 0)].type_name == NULL); idx = orc_program_add_destination(p, 2, g_str); break;
+    case 3: __CPROVER_assume(p->vars[ORC_VAR_P1 + (p->n_param_vars < ORC_MAX_PARAM_VARS ? p->n_param_vars : 0)].name == NULL); idx = orc_program_add_parameter(p, 2, g_str); break;
+    default: __CPROVER_assume(p->vars[ORC_VAR_A1 + (p->n_accum_vars < ORC_MAX_ACCUM_VARS ? p->n_accum_vars : 0)].name == NULL); idx = orc_program_add_accumulator(p, 2, g_str); break;
+  }
+  orc_program_free(p);
+  REACH();
+}
